@@ -2,7 +2,7 @@
 # selftest.sh <patch.diff> <property> [tier]  — apply a seeded change to a scratch copy of
 # /repo (outside /repo and /verif), run the property's check against it, expect a VIOLATION.
 # exit 0 = caught, 1 = missed, 2 = patch does not apply / build problem
-PATCH="$1"; PROP="$2"; TIER="${3:-quick}"
+PATCH="$(realpath "$1")"; PROP="$2"; TIER="${3:-quick}"
 S=$(mktemp -d /tmp/mut.XXXXXX)
 trap 'rm -rf "$S"' EXIT INT TERM
 mkdir -p "$S/go-p9p"
